@@ -8,7 +8,7 @@ PROPERTY = 'C07'
 LEVEL = 'exploration'
 RULE = ('maxdata M in {4096, 8192} x EVERY file size 0..3*chunk+64 (chunk = min(64 KiB, M/2)), M in {64 KiB, 256 KiB, 1 MiB} x every size within +-48 of each multiple of the '
         'chunk and of each flush threshold; device paths with non-ASCII characters, spaces and commas; a second connect() to a device announcing another maxdata followed by another push; device path lengths {1, 64, 1018 (1024 with the mode suffix, the adbd limit)}; st_mode {default, 0o100644, 0}; mtime {0, 1, 2^32-1}; sources {BytesIO, file path, directory of '
-        '0/1/3 files pushed from another / the parent / the same working directory / a working directory holding sub-directories named like the files}; callbacks {none, counting, raising, re-entrant (issues a stat on the same device while the push is running)}; the device withholding the final sync OKAY; both '
+        '0/1/3 files pushed from another / the parent / the same working directory / a working directory holding sub-directories named like the files}; callbacks {none, counting, raising, re-entrant (issues a stat on the same device while the push is running)}; a BytesIO read position {0, 1, mid, chunk, end} and a file appended to when the first WRTE leaves, each pushed with no/counting/raising callback (same bytes received); the device withholding the final sync OKAY; both '
         'twins; oracle: the model filesystem holds exactly the source bytes under <device_path>[/<name>] with the mode and mtime sent (virtual now when 0), SEND argument '
         '<path>,<decimal mode>, every DATA <= 64 KiB, every WRTE payload <= M, normal return only after the sync OKAY, callback counts sum to '
         'the size, host packet log with callback == without; non-trivial = file non-empty; distinct = distinct parameter tuple')
@@ -120,6 +120,55 @@ def run_push(params, ch):
         s.finish()
 
 
+def run_odd(params, ch):
+    """Sources whose size is not what a stat/getbuffer of the whole object says: a BytesIO the caller has partly read, a file that grows
+    during the push.  Oracle: what the device receives is the same with no callback, a counting callback and a raising callback; a
+    partly-read stream delivers (at least with no callback) exactly its unread remainder; a growing file delivers its old content
+    followed by nothing or by the appended bytes."""
+    M, twin, kind = params['M'], params['twin'], params['kind']
+    c = chunk_of(M)
+    size = params['size']
+    data = data_of(size, 11)
+    if kind == 'bytes-at':
+        pos = {'0': 0, '1': 1, 'mid': size // 2, 'end': size, 'chunk': min(c, size)}[params['pos']]
+        src = ('bytes-at', data, pos)
+        allowed = [data[pos:]]
+    else:
+        extra = data_of(params['extra'], 12)
+        src = ('file-grow', data, extra)
+        allowed = [data, data + extra]
+    got = {}
+    viol = []
+    res = {}
+    trans = 0
+    for cb in (None, 'count', 'raise'):
+        s = Session(ch, {'maxdata': M}, twin=twin)
+        try:
+            s.op(('connect',))
+            kw = {'mtime': 5}
+            if cb:
+                kw['cb'] = cb
+            r = s.op(('push', src, '/odd', kw))
+            res[cb] = r[:2]
+            got[cb] = [(x[0], x[3]) for x in s.env.fs.sends]
+            trans += len(s.env.events)
+            for v in oracle.base_viol(s, completed=(r[0] == 'ok')):
+                viol.append(v)
+            if r[0] != 'ok':
+                viol.append({'msg': 'push of %s with callback %s ended with %r' % (kind, cb, r)})
+        finally:
+            s.finish()
+    base = got[None]
+    if len(base) != 1 or base[0][0] != b'/odd' or base[0][1] not in allowed:
+        viol.append({'msg': 'push of %s (%r) without callback delivered %r, expected one file of %r bytes' % (kind, params, [(p, len(d)) for p, d in base], [len(a) for a in allowed])})
+    for cb in ('count', 'raise'):
+        if got[cb] != base:
+            viol.append({'msg': 'push of %s (%r): with a %s callback the device received %r, without callback %r' % (
+                kind, {k: v for k, v in params.items() if k != 'twin'}, cb, [(p, len(d)) for p, d in got[cb]], [(p, len(d)) for p, d in base])})
+    return {'outcome': (tuple(sorted((str(k), v) for k, v in res.items())), tuple(len(d) for _p, d in base)), 'viol': viol,
+            'nontrivial': tuple(sorted((k, str(v)) for k, v in params.items())), 'sample': dict(params, received=[len(d) for _p, d in base]), 'trans': trans}
+
+
 def run_reconnect(params, ch):
     M1, M2, size, twin = params['M1'], params['M2'], params['size'], params['twin']
     data = data_of(size)
@@ -215,6 +264,18 @@ def parts(tier):
           for dp in ('/sdcard/caf\u00e9.bin', '/\u3042/\u3044', '/data/\U0001F600', '/a b/c,d')]
     sc += [{'M': 4096, 'size': 3000, 'twin': t, 'src': 'dir', 'names': ['\u00fcber.txt', 'x'], 'cwd': 'elsewhere', 'dpath': '/sd/\u00e9'} for t in twins]
     out.append(Part('non-ascii-paths', sc, run_push, what='device paths with non-ASCII characters, spaces and commas', bound='%d pushes' % len(sc)))
+    sc = []
+    for t in twins:
+        for M in (4096, 65536, 1024 * 1024):
+            c = chunk_of(M)
+            for z in (0, 1, c - 1, c, 3 * c + 17):
+                for pos in ('0', '1', 'mid', 'chunk', 'end'):
+                    sc.append({'M': M, 'twin': t, 'kind': 'bytes-at', 'size': z, 'pos': pos})
+            for z in (1, c, 2 * c + 100, 5 * c):
+                for ex in (1, c + 17):
+                    sc.append({'M': M, 'twin': t, 'kind': 'file-grow', 'size': z, 'extra': ex})
+    out.append(Part('partly-read-and-growing-sources', sc, run_odd, what='a BytesIO whose read position is not 0 and a file that is appended to while it is pushed, each with no / a counting / a raising '
+                    'progress callback: the device receives the same bytes in all three runs', bound='%d cases x 3 callbacks' % len(sc)))
     sc = [{'M1': a, 'M2': b, 'size': z, 'twin': t, 'close': c} for a in (4096, 65536, 1024 * 1024) for b in (4096, 65536, 1024 * 1024) for z in (100, 70000, 300000) for t in twins for c in (False, True)]
     out.append(Part('reconnect-other-maxdata', sc, run_reconnect, what='push, connect() again (with or without close()) to a device announcing another maxdata, push again',
                     bound='%d cases' % len(sc)))
